@@ -138,6 +138,25 @@ func runC03(c *Check) {
 			call, ok := e.Tuple.(*ssa.Call)
 			return ok && calleeShort(&call.Call) == "spynode.removeHash"
 		}
+		// the same membership test written in place: a found-flag over the unconfirmed snapshot
+		inUnconfCall := inUnconf
+		inUnconf = func(v ssa.Value) bool {
+			if inUnconfCall(v) {
+				return true
+			}
+			isTxid := func(x ssa.Value) bool {
+				for _, r := range rootsAll(x) {
+					if call, ok := r.(*ssa.Call); ok && call.Call.IsInvoke() && call.Call.Method.Name() == "GetNextTx" {
+						return true
+					}
+				}
+				return false
+			}
+			fromSnapshot := func(x ssa.Value) bool {
+				return derivesFromCall(x, "(*storage.TxRepository).GetUnconfirmed") != nil
+			}
+			return inlineMembership(nil, v, isTxid, fromSnapshot)
+		}
 		inMemPool := func(v ssa.Value) bool {
 			return derivesFromCall(v, "(*state.MemPool).RemoveTransaction") != nil
 		}
